@@ -1,7 +1,7 @@
 (** Closed examples on the two-controller model: a schedule that satisfies the
     premises of the C19 theorems and completes two migrations, and the
     mis-routing witness with a third party on the network. *)
-From VMem Require Import Pmc PmcLemmas PmcProofs.
+From VMem Require Import Pmc PmcLemmas PmcProofs PmcLive.
 Open Scope N_scope.
 
 Fixpoint repeat_ev (n : nat) (l : list ev) : list ev :=
@@ -65,3 +65,18 @@ Lemma misroute_ok :
 Proof.
   eexists. vm_compute. split; [left; reflexivity|]. repeat split; try reflexivity. discriminate.
 Qed.
+
+(** the demo round is a covering segment, so its repetition is a fair schedule *)
+Lemma demo_round_covers : covers demo_round.
+Proof. intros a Ha. unfold round12 in Ha. cbn in Ha. unfold demo_round. cbn. intuition (subst; auto 20). Qed.
+
+Lemma repeat_fair k : fair k (repeat_ev k demo_round).
+Proof.
+  induction k; [apply fair_0|]. cbn [repeat_ev].
+  apply fair_S; auto using demo_round_covers.
+Qed.
+
+(** rank of the state right after one 128-byte request was accepted *)
+Lemma demo_rank :
+  mu (run (std_sys (gen_store 3 1) (gen_store 5 2)) [ECtrlReq PA (mkMigReq CP_A CA 1024 2048 RB 128)]) = 49%nat.
+Proof. vm_compute. reflexivity. Qed.
